@@ -66,7 +66,7 @@ structure Cfg where
   guardAffinity : Bool
   guardPpid : Bool
   pid0Refused : Bool           -- `_send_signal` raises ValueError for pid 0 before `os.kill`
-  negRejected : Bool           -- `_init` raises ValueError for pid < 0
+  negRejected : Bool           -- `_init` raises ValueError for pid < 0 (its own test, or cext.check_pid_range)
   rlimitPid0Refused : Bool     -- `_pslinux.Process.rlimit` raises ValueError for pid 0 before `prlimit`
   sigStop : Nat                -- suspend() → this signal number
   sigCont : Nat
